@@ -455,7 +455,7 @@ func coreHistory(c *core.Ctx, t *core.Trace, gen string, cas int, p int, capN in
 }
 
 // bulk history: estimates of counters fed up to 5m distinct items (offers not logged).
-func bulkHistory(c *core.Ctx, t *core.Trace, gen string, cas int, p int, dense bool) {
+func bulkHistory(c *core.Ctx, t *core.Trace, gen string, cas int, p int, dense bool, mult int) {
 	r := c.Rng(gen, cas)
 	t.Reset(gen, cas, core.Ev{"p": p})
 	m := 1 << uint(p)
@@ -464,11 +464,11 @@ func bulkHistory(c *core.Ctx, t *core.Trace, gen string, cas int, p int, dense b
 		t.Emit(core.Ev{"ev": "Panic", "in": "New", "msg": msg})
 		return
 	}
-	seen := make(map[uint64]struct{}, 5*m)
+	seen := make(map[uint64]struct{}, mult*m)
 	next := 0
 	sequential := r.Intn(4) == 0 // consecutive integers: the hash has to spread them
 	base := uint64(r.Uint32())
-	for len(seen) < 5*m {
+	for len(seen) < mult*m {
 		var it item
 		if sequential {
 			it = item{base + uint64(len(seen)), r.Intn(2) == 0}
@@ -497,7 +497,7 @@ func bulkHistory(c *core.Ctx, t *core.Trace, gen string, cas int, p int, dense b
 			return
 		}
 		n := len(seen)
-		if n >= next || n == 5*m || n == m/10 || n == m/4 || n == 2*m+m/2 || (dense && n >= m && n <= 4*m) {
+		if n >= next || n == 5*m || n == mult*m || n == m/10 || n == m/4 || n == 2*m+m/2 || (dense && n >= m && n <= 4*m) {
 			next = n + 1 + n/8
 			var e uint64
 			if msg := core.Guard(func() { e = ctr.Cardinality() }); msg != "" {
@@ -511,7 +511,7 @@ func bulkHistory(c *core.Ctx, t *core.Trace, gen string, cas int, p int, dense b
 }
 
 func Run(c *core.Ctx) error {
-	c.Rule = "per precision 4..16: a random set of distinct 32/64-bit items offered to real counters in two orders with duplicates, split into 1..4 overlapping parts and merged in two associations, serialised and rebuilt, every Offer boolean / GetBytes / Cardinality recorded; the same over items crafted (by inverting the 32-bit item hash) to have chosen index and remainder bits: all-zero remainder, single bits, first/last register, word boundaries; plus estimate checkpoints of counters fed up to 5m distinct items; a case is non-trivial if it involves at least 2 distinct items; distinct by (precision, set size, split) resp. (precision, n, estimate)"
+	c.Rule = "per precision 4..16: a random set of distinct 32/64-bit items offered to real counters in two orders with duplicates, split into 1..4 overlapping parts and merged in two associations, serialised and rebuilt, every Offer boolean / GetBytes / Cardinality recorded; the same over items crafted (by inverting the 32-bit item hash) to have chosen index and remainder bits: all-zero remainder, single bits, first/last register, word boundaries; plus estimate checkpoints of counters fed up to 5m (every third: 16m) distinct items; a case is non-trivial if it involves at least 2 distinct items; distinct by (precision, set size, split) resp. (precision, n, estimate)"
 	t := c.Trace("c14_hll", "Trace_HLL")
 	if c.WantGen("core") {
 		per := c.Pick(5, 40)
@@ -548,7 +548,12 @@ func Run(c *core.Ctx) error {
 		for rep := 0; rep < per; rep++ {
 			for p := 4; p <= 16; p++ {
 				if c.Want("bulk", cas) {
-					bulkHistory(c, t, "bulk", cas, p, false)
+					// every third counter is fed well past the linear-counting range (16m) so that the raw estimator is on its own
+					mult := 5
+					if rep%3 == 0 {
+						mult = 16
+					}
+					bulkHistory(c, t, "bulk", cas, p, false, mult)
 				}
 				cas++
 			}
@@ -562,7 +567,7 @@ func Run(c *core.Ctx) error {
 		for rep := 0; rep < per; rep++ {
 			for p := 4; p <= 7; p++ {
 				if c.Want("switch", cas) && (p <= 5 || rep%4 == 0) {
-					bulkHistory(c, t, "switch", cas, p, true)
+					bulkHistory(c, t, "switch", cas, p, true, 5)
 				}
 				cas++
 			}
